@@ -160,6 +160,11 @@ func FuncKey(f *ssa.Function) string {
 				pkg = shortPkg(n.Obj().Pkg().Path())
 			}
 		}
+		// an unexported method whose name occurs once in its package goes by `pkg.name`, like the function it
+		// would be if it took its receiver as first argument (the shape is not part of a helper's identity)
+		if uniqueUnexported[pkg+"."+f.Name()] && f.Object() != nil && !f.Object().Exported() {
+			return pkg + "." + f.Name()
+		}
 		if ptr != "" {
 			return fmt.Sprintf("%s.(*%s).%s", pkg, name, f.Name())
 		}
@@ -219,6 +224,33 @@ func Load(dir, goos, goarch string) (*Program, error) {
 		}
 	}
 	all := ssautil.AllFunctions(prog)
+	// names of unexported functions/methods that occur once in their (module) package
+	{
+		cnt := map[string]int{}
+		for f := range all {
+			if f.Parent() != nil || f.Object() == nil || f.Object().Exported() || f.Synthetic != "" {
+				continue
+			}
+			if o := f.Origin(); o != nil && o != f {
+				continue
+			}
+			var pk *types.Package
+			if f.Pkg != nil {
+				pk = f.Pkg.Pkg
+			} else {
+				pk = f.Object().Pkg()
+			}
+			if !inModule(pk) {
+				continue
+			}
+			cnt[shortPkg(pk.Path())+"."+f.Name()]++
+		}
+		for k, n := range cnt {
+			if n == 1 {
+				uniqueUnexported[k] = true
+			}
+		}
+	}
 	for f := range all {
 		var pk *types.Package
 		if f.Pkg != nil {
@@ -293,5 +325,48 @@ func (P *Program) Pos(p token.Pos) string {
 	return fmt.Sprintf("%s:%d", f, ps.Line)
 }
 
-// Func returns the function with the given key or nil.
-func (P *Program) Func(key string) *ssa.Function { return P.Funcs[key] }
+// Func returns the function with the given key or nil. An unexported function is also found under the key of its
+// other shape (`pkg.(*T).name` for `pkg.name` and the reverse) when its name is unique in the package: turning a
+// method into a function that takes the receiver as an argument, or back, does not change what a rule is about.
+func (P *Program) Func(key string) *ssa.Function {
+	if f, ok := P.Funcs[key]; ok {
+		return f
+	}
+	nk := normKey(key)
+	var found *ssa.Function
+	for k, f := range P.Funcs {
+		if normKey(k) == nk {
+			if found != nil && found != f {
+				return nil
+			}
+			found = f
+		}
+	}
+	return found
+}
+
+// uniqueUnexported: "pkg.name" of unexported functions and methods whose name occurs once in their package.
+var uniqueUnexported = map[string]bool{}
+
+// normKey drops the receiver from the key of an unexported method whose name is unique in its package.
+func normKey(k string) string {
+	i := strings.Index(k, ".(")
+	if i < 0 {
+		return k
+	}
+	j := strings.Index(k[i:], ").")
+	if j < 0 {
+		return k
+	}
+	pkg, name := k[:i], k[i+j+2:]
+	if name == "" || !(name[0] >= 'a' && name[0] <= 'z') || strings.ContainsAny(name, "$.") {
+		return k
+	}
+	if uniqueUnexported[pkg+"."+name] {
+		return pkg + "." + name
+	}
+	return k
+}
+
+// sameFn: two function keys denote the same function up to the method/function shape of an unexported helper.
+func sameFn(a, b string) bool { return a == b || normKey(a) == normKey(b) }
